@@ -116,7 +116,8 @@ def tv_pipeline(run, nitems):
     """I->S: loop events of run / trace_changes recorded from the real code, validated against TV_Pipeline"""
     ensure_corpus()
     trace = os.path.join(BUILD, "pipe-%s.ndjson" % run.pid)
-    summary, _ = run_harness(["record", "pipeline", trace, str(nitems)], env=run.known_env())
+    pool = rule_pool(run, ["any"])      # generated rules, each with words assembled from its own elements, join the repository's rules in the workload
+    summary, _ = run_harness(["record", "pipeline", trace, str(nitems)], env=dict(run.known_env(), VERIF_RULEPOOL=pool))
     run.add_summary("record_pipeline", summary, traces=False)
     res = run_tlc("TV_Pipeline", "tv/TV_Pipeline.tla", "tv/TV_Pipeline.cfg", env=dict(run.known_env(), TRACE=trace), timeout=3000, heap="10g")
     run.add_tlc("TV_Pipeline", res, "I->S: every hook event of apply_rule_groups / apply_rules_trace must be enabled in the loop-nest machine; memo (rule, word) -> result stays a function "
@@ -315,7 +316,7 @@ def c14(run):
 def classify_c07(m):
     """C07-KF1: alpha on stress, and the only differences are secondary stress marks that became primary"""
     import re
-    rule, before, after = m.get("rule", ""), m.get("word", ""), m.get("after", "")
+    rule, before, after = m.get("rule", ""), m.get("before") or m.get("word", ""), m.get("after", "")      # `before`: the word as the renderer prints it (the typed text may be spelled differently)
     norm = lambda w: w.replace("'", "\u02c8").replace(",", "\u02cc").replace(":", "\u02d0")
     before = norm(before)
     if re.search(r"[A-Z]stress", rule) and len(before) == len(after) and before != after and all(a == b or (b == "\u02cc" and a == "\u02c8") for a, b in zip(after, before)):
@@ -372,6 +373,15 @@ def classify_c02(m):
         return "C02-KF5"
     if out == "panic" and "index out of bounds" in det and "@ word.rs" in det and insertion and parts["exc"]:
         return "C02-KF2"
+    if out == "panic" and "not implemented" in det and "@ subrule.rs" in det:
+        import re
+        whole = m.get("rule", "")
+        for st in re.findall(r"[<\u27e8]([^>\u27e9]*)[>\u27e9]", whole):
+            toks = st.split()
+            if any(tk in ("...", "..", "\u2026") for tk in toks):
+                i = min(k for k, tk in enumerate(toks) if tk in ("...", "..", "\u2026"))
+                if any(re.fullmatch(r"\d+(:\[.*)?", tk) for tk in toks[i + 1:]):
+                    return "C02-KF6"
     ells = ("...", "..", "\u2026")
     if out == "panic" and ("index out of bounds" in det or "Segment Position should be within bounds" in det) and "@ subrule.rs" in det and not insertion \
             and any(e in parts["inp"] for e in ells):
@@ -442,9 +452,10 @@ def c01(run):
     groups = collections.defaultdict(list)
     total = 0
     procs = []
+    pool = rule_pool(run, ["any"])
     for p in range(K):
         out = os.path.join(BUILD, "c01-p%d.ndjson" % p)
-        procs.append((out, subprocess.Popen([HARNESS, "record", "C01", out, str(p), str(nitems)], env=dict(os.environ, **{k: str(v) for k, v in run.known_env().items()}),
+        procs.append((out, subprocess.Popen([HARNESS, "record", "C01", out, str(p), str(nitems)], env=dict(os.environ, VERIF_RULEPOOL=pool, **{k: str(v) for k, v in run.known_env().items()}),
                                             stdout=subprocess.PIPE, stderr=subprocess.PIPE, text=True)))
     for out, pr in procs:
         so, se = pr.communicate(timeout=3000)
